@@ -246,6 +246,14 @@ class FakeSocket:
         self.opts: list[tuple[int, int, int]] = []
         self._fd = 0
         self._files: list[Any] = []
+        sched._sock_seq = getattr(sched, "_sock_seq", 0) + 1  # deterministic hash (sets of sockets in code under test)
+        self._hseq = sched._sock_seq
+
+    def __hash__(self) -> int:
+        return self._hseq
+
+    def __eq__(self, other: object) -> bool:
+        return self is other
 
     def setsockopt(self, level: int, opt: int, value: int) -> None:
         self.opts.append((level, opt, value))
